@@ -120,7 +120,7 @@ def get_stage(R, keep_workspace=False):
         if not ok:
             raise RuntimeError("pavexc does not build with hooks on: " + out[-1500:])
         # drop stale stages / workspaces of other tree states
-        for p in glob.glob(os.path.join(SCRATCH, "stage-*.json")) + glob.glob(os.path.join(SCRATCH, "runtime-*.json")) + glob.glob(os.path.join(SCRATCH, "ws-*")):
+        for p in glob.glob(os.path.join(SCRATCH, "stage-*.json")) + glob.glob(os.path.join(SCRATCH, "ws-*")):
             if key not in p:
                 shutil.rmtree(p, ignore_errors=True) if os.path.isdir(p) else os.unlink(p)
         progs = build_programs(R)
